@@ -342,8 +342,9 @@ def replay_in_fresh_process(prop, path, hashseed='0'):
     env['PYTHONHASHSEED'] = hashseed
     env['PICOSIM_NO_CONFIRM'] = '1'
     p = subprocess.run(
-        [sys.executable, os.path.join(VERIF_DIR, 'picosim', 'main.py'),
-         prop, '--replay', path],
+        [sys.executable] + (['-O'] if sys.flags.optimize else []) +
+        [os.path.join(VERIF_DIR, 'picosim', 'main.py'), prop, '--replay',
+         path],
         env=env, stdout=subprocess.PIPE, stderr=subprocess.STDOUT,
         timeout=600)
     return p.returncode, p.stdout.decode('utf-8', 'replace')
